@@ -79,6 +79,20 @@ KANI_ASM_CODEC = {'crate': 'kani/asm_k1', 'generate': asm_yaml.gen_kani_table, '
     {'name': 'proofs::truncated_immediate', 'claim': 'empty input is None; opcode with immediates followed by fewer than 8 bytes is NotEnoughBytes; invalid byte is InvalidOpcode'},
     {'name': 'proofs::decode_then_encode_9', 'tier': 'thorough', 'claim': 'all [u8; 9]: parse fails exactly per asm.yml or yields the op asm.yml names for that byte, which serialises to exactly the consumed bytes'}]}
 
+XRUN_GRAPH = {'suite': 'graph', 'claim': 'two-pass verdict / gas / returned mutations of the real checker == reference semantics (refsem.rs, written from the statements of C01 and C03): '
+              'every node once after all parents from the concatenation of parent outputs in ascending parent order; leaves [1] / [2]; post-state readers and their descendants in the second pass; '
+              'post-state reads == per-key overlay (deletions, key carry, extern); computed mutations observed; cyclic / malformed graphs rejected; both values of collect_all_failures',
+              'bound': 'every edge set (incl. self loops) over <= 3 nodes and every 7th over 4 nodes (thorough: all 65536), plus a multi-edge variant, two leaf encodings, a post-state reader / failing / '
+                       'unsatisfied program at each node in turn; 4-key ranges x 16 mutation masks x deletion / pre-state masks x 4 start keys (carry, end of key space) x own / extern; '
+                       'computed-mutation cases incl. pushed words that look like post-read opcodes and nodes sharing a program'}
+XRUN_COMPUTE = {'suite': 'compute', 'claim': 'Compute(n) on the real VM == sequential fork / join written from the statement of C10 (children run one after another on the real VM): child start state, '
+                'joined memory in index order, parent stack, resume position, halt, gas, and every failure condition (child error, breadth < 1, nested Compute, combined memory above the limit)',
+                'bound': '5 parent states (incl. 9941- and 10240-word memories) x 15 child bodies (index-dependent allocation / jumps / halts / errors, parent-memory reads, inherited-stack edits, nested compute) '
+                         'x breadths {1, 2, 3, 0, -1, 40} x 3 suffixes x with / without ComputeEnd'}
+XRUN_BYTECODE = {'suite': 'bytecode', 'claim': 'BytecodeMapped (borrowed and owned) == parsed op list: success / error kind, ops(), op(i) for i <= len + 2 (None past the end, no panic), rebuild from ops; '
+                 'exec_bytecode == exec_ops (result, gas, pc, stack, memory, halt, repeat) from pc 0 and from pcs at / past the end',
+                 'bound': 'all byte strings of length <= 1, a fifth of length 2 (thorough: all), length 3 over 14 representative bytes, Push with every truncation; every program of <= 3 ops (thorough 4) over a 20-op palette '
+                          '(pushes, stack / alu / pred ops, JumpIf, HaltIf, Halt, Repeat, RepeatEnd, memory ops, Compute, ComputeEnd) x 3 initial stacks, gas limit 300'}
 PROPS = {
     'C05': {'level': 'proof', 'verus_units': ['vm_core'], 'kani': [KANI_VM_OPS_ALL],
             'explanation': 'VM totality / resource bounds: every function of the synchronous VM core carries vm_wf-style '
@@ -101,9 +115,9 @@ PROPS = {
             'explanation': 'validators accept exactly the documented limits (bi-implications)'},
     'C04': {'level': 'proof', 'verus_units': ['check_core', 'hash_core'],
             'explanation': 'set validation verdict is a symmetric predicate of the solutions; one mutation per (contract, key) across the set'},
-    'C01': {'level': 'other', 'verus_units': ['check_core'],
+    'C01': {'level': 'other', 'verus_units': ['check_core'], 'xrun': [XRUN_GRAPH],
             'explanation': 'graph layer only: malformed graphs rejected (create_parent_map Ok <==> graph_ok), helpers panic-free on every graph; orchestration not covered'},
-    'C03': {'level': 'other', 'verus_units': ['check_core', 'vm_core'],
+    'C03': {'level': 'other', 'verus_units': ['check_core', 'vm_core'], 'xrun': [XRUN_GRAPH],
             'explanation': 'state-read routing (vm_core), overlay fallback for contracts without mutations, key successor (bounded), deferral helpers panic-free; two-pass sequencing not covered'},
     'C13': {'level': 'proof', 'verus_units': ['asm_core'], 'extra': [extras.asm_table], 'kani': [KANI_WORD_BYTES, KANI_ASM_CODEC],
             'explanation': 'the codec the proc-macro generated (macro-expanded text of the working tree) is verified against spec tables generated from asm.yml by an independent YAML reading: '
@@ -122,12 +136,12 @@ PROPS = {
             'not_covered': ['that the chunks fed to the hasher are the sorted addresses in order (Map adapter) - assumed', 'contract_addr::from_predicate_addrs_slice (chain + sort): assumed',
                             'encode_predicate against the documented layout (iterator chains; Kani harness exhausted memory: 65 GB): assumed', 'postcard serialisation and SHA-256: external',
                             'injectivity of the pre-hash encodings is not stated as an obligation']},
-    'C14': {'level': 'other', 'kani': [KANI_VM_MAPPED],
+    'C14': {'level': 'other', 'kani': [KANI_VM_MAPPED], 'xrun': [XRUN_BYTECODE],
             'explanation': 'bounded only (Kani on the real compiled crate): try_from_bytes uses enumerate/by_ref/map and op()/ops() closures with expect - outside Verus. '
                            'Execution equivalence reduces to agreement of op access: Vm::exec is verified generically over OpAccess (C05/C07/C09).',
             'not_covered': ['byte strings longer than the stated bounds', 'FromIterator / push_op (building from operations)', 'owned Vec<u8> container (same generic code path as &[u8])',
                             'execution equivalence itself (parametricity argument, not an obligation)']},
-    'C10': {'level': 'other', 'verus_units': ['vm_core'], 'kani': [KANI_VM_JOIN],
+    'C10': {'level': 'other', 'verus_units': ['vm_core'], 'kani': [KANI_VM_JOIN], 'xrun': [XRUN_COMPUTE],
             'explanation': 'join step compute_effects bounded by Kani through a cfg(kani) hook; Vm::exec handling of ComputeEnd / compute results verified in Verus (vm_core); '
                            'the fork (rayon, child initial state, depth and breadth checks in `compute`) is NOT covered',
             'not_covered': ['compute(): rayon fork, child initial state, depth check, breadth check', 'thread schedules (C02)', 'memory shapes beyond the stated bounds', 'the combined-memory limit (a harness with a 10239-word parent crashed CBMC); Memory::alloc itself is Verus-verified to fail above the limit']},
